@@ -406,7 +406,7 @@ func structTypeName(t types.Type) string {
 	if p, ok := t.Underlying().(*types.Pointer); ok {
 		t = p.Elem()
 	}
-	if n, ok := t.(*types.Named); ok {
+	if n, ok := t.(*types.Named); ok && n.Obj().Pkg() != nil { // universe types (error) have no package
 		return eng.Short(n.Obj().Pkg().Path() + "." + n.Obj().Name())
 	}
 	return ""
